@@ -62,6 +62,8 @@ Definition op_of (d : dyn) : option op :=
   | DTuple [DInt 17] => Some OpQuit
   | DTuple [DInt 18; DList a] => Some (OpStatsRaw a)
   | DTuple [DInt 19] => Some OpClose
+  | DTuple [DInt 23; m] => Some (OpCacheMemlimit m)
+  | DTuple [DInt 24; g] => Some (OpShutdown g)
   | _ => None end.
 Fixpoint ops_of (l : list dyn) : option (list op) :=
   match l with [] => Some [] | d :: t => match op_of d, ops_of t with Some o, Some r => Some (o :: r) | _, _ => None end end.
